@@ -474,6 +474,13 @@ func c01(c *ctx) {
 	for k := 0; k < nb; k++ {
 		c01burst(c, k)
 	}
+	nrt := 8
+	if c.thorough() {
+		nrt = 80
+	}
+	for k := 0; k < nrt; k++ {
+		c01route(c, k)
+	}
 }
 
 // burst delivery: many records of ONE stream are handed to the deplex goroutines of several
